@@ -5,7 +5,7 @@ import common as C
 ID = "C03"
 COQ_TARGETS = ["Gen/Forward.vo", "Properties/C03.vo"]
 THEOREMS = ["C03_fwd_eq_spec", "C03_chain_eq_spec", "C03_chain_last_is_fwd", "C03_chain_prefix",
-            "C03_origin_offsets", "C03_chain_proper", "C03_fwd_proper"]
+            "C03_origin_offsets", "C03_chain_proper", "C03_fwd_proper", "C03_fwd_periodic"]
 LEVEL_TEXT = ("Coq theorems for every parameter set and every real joint vector about models of forward() and "
               "forward_with_joint_poses() that are re-translated from src/kinematics_impl.rs on every run: closed form = product of the "
               "six elementary OPW transforms (ring identities in sin/cos), per-link poses = partial products, prefix dependence, "
